@@ -1,7 +1,9 @@
 package harness
 
 import (
+	"encoding/json"
 	"fmt"
+	"os"
 	"strings"
 	"testing"
 
@@ -81,4 +83,78 @@ func TestC19Scripts(t *testing.T) {
 		}
 		ev.Case(tokens >= 2, "script/"+s, map[string]interface{}{"input": s, "family": fam, "components": len(comps)}, "script-aware-input", "script:"+fam)
 	})
+}
+
+// TestC19EveryRune: every code point of the Basic Multilingual Plane (and, in the thorough tier,
+// of the supplementary planes in use), alone and between two ASCII letters, through every
+// character filter, tokenizer, token filter and analyzer.  Tables indexed by code point, output
+// buffers sized from the input and per-script special cases fail for particular runes, which
+// random text meets too rarely.
+func TestC19EveryRune(t *testing.T) {
+	ev := Ev("C19")
+	comps := c19Setup(t)
+	limit := rune(0xFFFF)
+	if thorough() {
+		limit = 0x2FFFF
+	}
+	n, multi := 0, 0
+	shard, nshards := envInt("VERIF_SHARD", 0), envInt("VERIF_NSHARDS", 1) // the driver's shards split the range
+	if nshards < 1 {
+		nshards = 1
+	}
+	for r := rune(1); r <= limit; r++ {
+		if r >= 0xD800 && r <= 0xDFFF || int(r)%nshards != shard%nshards {
+			continue
+		}
+		for _, s := range []string{string(r), "a" + string(r) + "b"} {
+			input := []byte(s)
+			for _, c := range comps {
+				if c.kind == "analyzer" && !thorough() && r > 0x3FFF && r%4 != 0 {
+					continue // quick tier: analyzers see a quarter of the upper BMP
+				}
+				msg, ntok := c19RunComponent(c, input, 0)
+				if msg != "" {
+					writeReplayJSON("C19", map[string]interface{}{"rune": fmt.Sprintf("U+%04X", r), "input": s, "component": c.kind + ":" + c.name})
+					t.Fatalf("rune U+%04X: %s", r, msg)
+				}
+				if ntok >= 2 {
+					multi++
+				}
+			}
+			n++
+		}
+	}
+	ev.mu.Lock()
+	ev.Extra["every_rune_inputs"] = n
+	ev.mu.Unlock()
+	ev.Class("every-rune-inputs", n)
+	ev.Class("every-rune-inputs-split-into-several-tokens", multi)
+}
+
+// TestC19Replay re-runs one saved (component, input) pair (VERIF_REPLAY=<file>).
+func TestC19Replay(t *testing.T) {
+	path := os.Getenv("VERIF_REPLAY")
+	if path == "" {
+		t.Skip("no VERIF_REPLAY")
+	}
+	raw, err := os.ReadFile(path)
+	if err != nil {
+		t.Fatalf("harness: %v", err)
+	}
+	var c struct {
+		Input     string `json:"input"`
+		Component string `json:"component"`
+	}
+	if err := json.Unmarshal(raw, &c); err != nil {
+		t.Fatalf("harness: %v", err)
+	}
+	for _, comp := range c19Setup(t) {
+		if comp.kind+":"+comp.name == c.Component {
+			if msg, _ := c19RunComponent(comp, []byte(c.Input), 0); msg != "" {
+				t.Fatalf("%s", msg)
+			}
+			return
+		}
+	}
+	t.Fatalf("harness: component %q not found", c.Component)
 }
